@@ -75,19 +75,31 @@ class C18(Prop):
             "any depth, possibly inside an existing package) x programs (plain / aliased / from / from-as imports, multi-alias and "
             "parenthesised statements, two import blocks, function-level imports, references in calls, defaults, class bodies, "
             "try blocks) x ImportFormatParams x {transform_imports, canonicalize_imports(db) incl. __forget_imports__, "
-            "bin/transform-imports}; plus correspondence-only cases with arbitrary maps (chains, swaps, OLD prefix of NEW) and an "
+            "bin/transform-imports, bin/tidy-imports with an import database (known imports under OLD paths, "
+            "__canonical_imports__ in one or two assignments / files, __mandatory_imports__) on files that lack / have / "
+            "already renamed the imports}; chained maps (NEW of one entry a dotted prefix of another entry's OLD, "
+            "across top-level packages), judged by execution in a universe whose NEW-side sub-modules exist only once "
+            "imported; programs that are modules of a package with relative imports (1-3 dots) of siblings named like "
+            "OLD; plus correspondence-only cases with arbitrary maps (chains, swaps, OLD prefix of NEW) and an "
             "exhaustive small scope of Import.replace / split / from_split and of the body regex; a case is non-trivial when the "
             "output differs from the input; distinct by text+map+mode")
-    trusted_base = ["CPython's import machinery and exec: the oracle runs input and output programs in-process against synthetic "
-                    "modules registered in sys.modules, NEW names registered for the very same module objects",
+    trusted_base = ["CPython's import machinery and exec: the oracle runs input and output programs in-process, each in a fresh "
+                    "universe of synthetic modules served by a meta-path finder (gen_c18.Universe): a NEW name yields the very "
+                    "same object as its OLD name; real sub-modules are attributes of their package from the start, a NEW-side "
+                    "sub-module becomes an attribute only when an import statement imports it",
+                    "bin/tidy-imports route: the reference program is what the same command prints with --no-canonicalize "
+                    "(route canonical) / the file itself (route --transform); no correspondence check on this route",
                     "stdlib ast/tokenize: which imports a text contains, where OLD occurs (program-domain validator)",
                     "modelled, not verified: Python's re (the \\b scan is modelled in Lean and compared with re.sub on an exhaustive "
                     "small scope and on every generated body); pretty-printing of the rewritten imports (property C11) - the "
                     "correspondence check compares the per-block import sets and body texts, the oracle parses the printed text"]
     assumptions = ["program domain (stated in the property): OLD is mentioned only through imports of OLD/OLD.* and references to the "
                    "local names they bind; never after a dot, in strings/comments, or through an import of a proper prefix of OLD",
-                   "oracle domain for maps: OLDs distinct, NEWs distinct, no NEW prefix-related to another entry's OLD "
-                   "(chains/swaps are checked against the model only)",
+                   "oracle domain for maps: OLDs distinct, NEWs distinct, no NEW prefix-related to another entry's OLD, except "
+                   "chained maps (case flag `chain`): a NEW may be a dotted prefix of / equal to another entry's OLD; for these "
+                   "the oracle demands: output parses, imports under no OLD unchanged, no import under OLD left as it was, "
+                   "identical behaviour (swaps and other relations are checked against the model only)",
+                   "a relative import's dotted path begins with a dot: it is under no OLD and must come out unchanged",
                    "the model's \\w is Python's on ASCII, U+0080-U+017F, Greek and CJK Unified Ideographs (compared with re on every "
                    "code point of these blocks); text outside that alphabet is not sent to the model (see known finding C18-D5)"]
     families = {}
@@ -119,8 +131,11 @@ class C18(Prop):
         if tier == "search":
             return G.gen_odomain_case(rng)
         ncli = 120 if tier == "thorough" else 10
+        ntidy = 200 if tier == "thorough" else 24
         if i < ncli:
             return G.gen_odomain_case(rng, mode="cli")
+        if i < ncli + ntidy:
+            return G.gen_tidy_case(rng)
         if r < 0.72:
             return G.gen_odomain_case(rng)
         return G.gen_konly_case(rng)
@@ -181,8 +196,15 @@ class C18(Prop):
 
     # -- implementation ----------------------------------------------------------
     def effective_map(self, case):
+        # ImportMap.without_imports: "Matches both keys and values" (only a chained map has a value that is a key)
         forget = set(case.get("forget") or [])
-        return [e for e in case["map"] if e[0] not in forget]
+        return [e for e in case["map"] if e[0] not in forget and e[1] not in forget]
+
+    def family_map(self, case):
+        """the map the known-finding families look at: for a chained map also the chained entries read over the
+        original names ({a: n, n: m.w} behaves on `a` like {a: m.w})"""
+        ents = self.effective_map(case)
+        return ents + G.pulled_back(ents) if case.get("chain") else ents
 
     def run_impl(self, case):
         import pyflyby._imports2s as I2S
@@ -193,7 +215,7 @@ class C18(Prop):
         text, entries, params = case["text"], case["map"], dict(case.get("params") or {})
         mode = case.get("mode", "transform")
         obs = dict(mode=mode)
-        if mode != "cli":
+        if mode not in ("cli", "tidy"):
             # calls made earlier in this process: first the ones the case carries, then the case itself is
             # remembered so that a state-dependent failure of a later case can be made self-contained
             for pc in case.get("prior_calls") or []:
@@ -215,6 +237,8 @@ class C18(Prop):
 
         if mode == "cli":
             return self._run_cli(case, obs)
+        if mode == "tidy":
+            return self._run_tidy(case, obs)
         I2S.SourceToSourceFileImportsTransformation = Rec
         from pyflyby._importstmt import ImportFormatParams
         if isinstance(params.get("align_imports"), list):
@@ -312,6 +336,67 @@ class C18(Prop):
             shutil.rmtree(d, ignore_errors=True)
         return obs
 
+    def _run_tidy(self, case, obs):
+        """bin/tidy-imports (sub-process, default options) on the case's file with the case's import database:
+        once with the rename (obs["out"]) and once without it (obs["t0"]: --no-canonicalize / no --transform).
+        The program the rename applies to is t0 - the file with the imports tidy-imports itself adds or drops."""
+        d = tempfile.mkdtemp(prefix="c18tidy_", dir=self._tmp)
+        try:
+            path = os.path.join(d, "prog.py")
+            with open(path, "w", encoding="utf-8") as f:
+                f.write(case["file"])
+            route = case.get("route", "canonical")
+            db = "".join(l + "\n" for l in case.get("known") or [])
+            if case.get("mandatory"):
+                db += "__mandatory_imports__ = [%s]\n" % ", ".join(repr(x) for x in case["mandatory"])
+            db2 = None
+            if route == "canonical":
+                if case.get("dbfiles") == 2 and len(case["map"]) > 1:
+                    # two database files on PYFLYBY_PATH (ImportDB.__or__ / ImportMap.__or__): the known imports and
+                    # the first renames in one, the remaining renames in the other
+                    cut = (case.get("dbsplit") or [1])[0]
+                    db += self._dbtext(case["map"][:cut])
+                    db2 = self._dbtext(case["map"][cut:], case.get("forget"))
+                else:
+                    db += self._dbtext(case["map"], case.get("forget"), case.get("dbsplit"))
+            dbpath = os.path.join(d, "db.py")
+            with open(dbpath, "w", encoding="utf-8") as f:
+                f.write(db)
+            if db2 is not None:
+                with open(os.path.join(d, "db2.py"), "w", encoding="utf-8") as f:
+                    f.write(db2)
+                dbpath += os.pathsep + os.path.join(d, "db2.py")
+            env = dict(os.environ)
+            env["PYTHONPATH"] = os.path.join(REPO, "lib", "python")
+            env["PYFLYBY_PATH"] = dbpath
+            env["PYFLYBY_LOG_LEVEL"] = "ERROR"
+            env["PYTHONUTF8"] = "1"
+            base = [sys.executable, os.path.join(REPO, "bin", "tidy-imports"), "--print"]
+            with_rename, without = list(base), list(base)
+            if route == "canonical":
+                without.append("--no-canonicalize")
+            else:
+                for k, v in case["map"]:
+                    with_rename += ["--transform", "%s=%s" % (k, v)]
+            procs = [subprocess.Popen(cmd + [path], env=env, cwd=d, stdout=subprocess.PIPE, stderr=subprocess.PIPE,
+                                      text=True, encoding="utf-8") for cmd in (without, with_rename)]
+            res = [(pr.communicate(timeout=120), pr.returncode) for pr in procs]
+            (o0, e0), rc0 = res[0]
+            (o1, e1), rc1 = res[1]
+            if rc0 != 0:
+                obs["t0_err"] = "cli-exit-%d" % rc0
+                obs["t0_errmsg"] = e0[-300:]
+            else:
+                obs["t0"] = o0
+            if rc1 != 0:
+                obs["err"] = "cli-exit-%d" % rc1
+                obs["errmsg"] = e1[-300:]
+            else:
+                obs["out"] = o1
+        finally:
+            shutil.rmtree(d, ignore_errors=True)
+        return obs
+
     # -- oracle ----------------------------------------------------------------
     def _oracle_unit(self, case, obs):
         """Prefix-exactness of Import.replace in the property's own words, on every (name, OLD) pair."""
@@ -385,7 +470,7 @@ class C18(Prop):
         """A failure that is not a listed finding must replay from the case alone.  The pool workers evaluate
         many cases per process; if this failure needs calls made earlier in this process, find a small set of
         them and record it as the case's `prior_calls` (through obs -> stats(), see there)."""
-        if case.get("kind") == "unit" or obs.get("mode") == "cli" or "hist_index" not in obs:
+        if case.get("kind") == "unit" or obs.get("mode") in ("cli", "tidy") or "hist_index" not in obs:
             return
         if not self._unlisted(case, fails):
             return
@@ -448,11 +533,29 @@ class C18(Prop):
         if not case.get("odomain"):
             return []
         text, entries = case["text"], self.effective_map(case)
+        chain = bool(case.get("chain"))
+        may_drop = False
+        if case.get("mode") == "tidy":
+            # the rename applies to what tidy-imports makes of the file before renaming (missing imports added
+            # from the database, unused ones dropped): that program is the reference, not the file
+            if obs.get("t0") is None:
+                obs["tidy_reference_failed"] = True
+                return []
+            # route canonical: the database's renames are applied last, to obs["t0"].  Route transform:
+            # --transform is applied first, to the file itself; the tidying that follows may drop imports
+            # (unused / made redundant), never add one here (the file lacks none)
+            text = obs["t0"] if case.get("route", "canonical") == "canonical" else case["file"]
+            may_drop = text is not obs["t0"]
         base = dict(map=case["map"], text=text, mode=case.get("mode"))
-        dom = G.domain_problems(text, entries)
+        if case.get("mode") == "tidy":
+            base["file"] = case.get("file")
+        # chained maps: the program-domain conditions also hold for the chained entries read over the original names
+        dom = G.domain_problems(text, entries + G.pulled_back(entries) if chain else entries)
         if dom:
+            if case.get("mode") == "tidy":
+                obs["tidy_reference_outside_domain"] = True
             return []           # outside the property's program domain: nothing is claimed
-        if not G.map_in_odomain(entries):
+        if not (G.map_in_chain_domain(entries) if chain else G.map_in_odomain(entries)):
             return []
         if "err" in obs:
             return [dict(base, what="rename raised", err=obs["err"], msg=obs.get("errmsg"))]
@@ -469,17 +572,23 @@ class C18(Prop):
             matches = [(o, n) for o, n in entries if G.under(f, o)]
             if not matches:
                 accounted.add((f, l))
-                if (f, l) not in set_out:
+                if (f, l) not in set_out and not may_drop:
                     got = sorted(x for x in set_out if x[1] == l or x[0] == f)
                     fails.append(dict(base, what="an import whose path is not under OLD was changed",
                                       imp=[f, l], got=got, out=out))
+                continue
+            if chain:
+                # chained maps: which path the import ends at is judged by running the program; here only
+                # "an import under OLD does not stay"
+                if (f, l) in set_out:
+                    fails.append(dict(base, what="an import under OLD was not rewritten", imp=[f, l], out=out))
                 continue
             images = set()
             for o, n in matches:
                 l2 = G.rename(l, o, n) if G.under(l, o) else l
                 images.add((G.rename(f, o, n), l2))
             accounted |= images
-            if not (images & set_out):
+            if not (images & set_out) and not (may_drop and (f, l) not in set_out):
                 got = sorted(x for x in set_out if x[1] == l)
                 if (f, l) in set_out:
                     fails.append(dict(base, what="an import under OLD was not rewritten", imp=[f, l], out=out))
@@ -503,15 +612,20 @@ class C18(Prop):
                                       imp=[f, l], out=out))
                 continue
             images = {(G.rename(f, o, n), G.rename(l, o, n) if G.under(l, o) else l) for o, n in matches}
+            if chain:
+                if (f, l) in nset:
+                    fails.append(dict(base, what="an import under OLD was not rewritten", nested=True, imp=[f, l],
+                                      stmt=seg, out=out))
+                continue
             if not (images & nset):
                 fails.append(dict(base, what="an import under OLD was not rewritten", nested=True, imp=[f, l],
                                   stmt=seg, out=out))
         extra = set_out - accounted
-        if extra and not fails:
+        if extra and not fails and not chain:
             fails.append(dict(base, what="output has an import that is no image of an input import",
                               extra=sorted(extra), out=out))
         # behaviour under the aliasing universe
-        t_in, t_out = G.run_both(case["mods"], entries, text, out)
+        t_in, t_out = G.run_both(case["mods"], entries, text, out, case.get("pkg"))
         if t_in is None:
             # no universe in which every NEW denotes its OLD's object could be built: no reference behaviour
             obs["universe_inconsistent"] = True
@@ -538,7 +652,7 @@ class C18(Prop):
             if case.get("cps"):
                 reqs.append(dict(op="isw", cps=case["cps"]))
             return reqs
-        if obs.get("mode") == "cli" or obs.get("blocks_in") is None:
+        if obs.get("mode") in ("cli", "tidy") or obs.get("blocks_in") is None:
             return []
         if not all(G.in_alphabet(b.get("text", "")) for b in obs["blocks_in"]) or \
                 not all(G.in_alphabet(k + v) for k, v in case["map"]):
@@ -608,13 +722,13 @@ class C18(Prop):
     def fam_alias_is_old_dotted_new(self, case, failure):
         """C18-D1: a from-/aliased import's local name (module-level or function-level import) equals a
         single-component OLD whose NEW is dotted: the dotted NEW lands in alias / member position."""
-        ents = self.effective_map(case)
+        ents = self.family_map(case)
         return any(l == o and "." in n for _, l in self._nonplain_single_locals(case) for o, n in ents)
 
     def fam_alias_is_old_nested_order(self, case, failure):
         """C18-D2: local name equals a single-component OLD_j, the import's path is under a longer OLD_i that
         comes earlier in the map (so the path no longer matches OLD_j when its turn comes)."""
-        ents = self.effective_map(case)
+        ents = self.family_map(case)
         for f, l in self._nonplain_single_locals(case):
             for j, (oj, nj) in enumerate(ents):
                 if l != oj:
@@ -629,7 +743,7 @@ class C18(Prop):
         """C18-D3: (a) a non-leading component sequence of NEW_i equals OLD_j for a later entry j, or
         (b) the dotted path of an import under OLD_j contains OLD_j again after a dot (`import a.a`).
         Either way the body regex matches text preceded by a dot."""
-        ents = self.effective_map(case)
+        ents = self.family_map(case)
         for i, (oi, ni) in enumerate(ents):
             for oj, nj in ents[i + 1:]:
                 m = re.search(r"\b%s\b" % re.escape(oj), ni)
@@ -648,7 +762,7 @@ class C18(Prop):
     def fam_nested_from_import(self, case, failure):
         """C18-D4: a function-level from-import whose statement text does not contain OLD contiguously
         (OLD spans the `import` keyword) is left alone: only module-level import blocks are parsed."""
-        ents = self.effective_map(case)
+        ents = self.family_map(case)
         # (b) the member name of a function-level from-import is a single-component OLD: the textual replacement
         #     puts NEW in member position ('from zy.y import zy.y') - same root cause, the statement is not parsed
         try:
@@ -664,9 +778,16 @@ class C18(Prop):
             return False
         seg = failure.get("stmt") or ""
         f = failure["imp"][0]
-        ents = self.effective_map(case)
+        ents = self.family_map(case)
         return seg.startswith("from ") and not any(
             G.under(f, o) and re.search(r"\b%s\b" % re.escape(o), seg) for o, n in ents)
+
+    def fam_reads_through_package_binding(self, case, failure):
+        """C18-D6: the only binding of a top-level package name is a plain dotted import under OLD that moves to
+        another package; the body reads other attributes of that package through it."""
+        if failure.get("what") != "behaviour differs after the rename":
+            return False
+        return G.reads_through_package_binding(failure.get("text") or case["text"], self.family_map(case))
 
     def fam_identifier_not_w(self, case, failure):
         """C18-D5: the program has an identifier with a code point that continues an identifier but is not `\\w`."""
@@ -675,6 +796,10 @@ class C18(Prop):
 
     # -- statistics ----------------------------------------------------------------
     def nontrivial_key(self, case, obs):
+        if obs.get("mode") == "tidy":
+            if obs.get("out") is not None and obs.get("t0") is not None and obs["out"] != obs["t0"]:
+                return (case["file"], json.dumps(case["map"]), "tidy", json.dumps(case.get("known")))
+            return None
         if obs.get("out") is not None and obs["out"] != case["text"]:
             return (case["text"], json.dumps(case["map"]), case.get("mode"))
         return None
@@ -711,6 +836,26 @@ class C18(Prop):
             inc("non_ascii_identifiers")
             if any(not o.split(".")[0].isascii() for o, _ in case["map"]):
                 inc("non_ascii_old_root")
+        if case.get("chain"):
+            inc("chained_map")
+            if len({o.split(".")[0] for o, _ in case["map"]} | {n.split(".")[0] for _, n in case["map"]}) > 1:
+                inc("chained_map_across_packages")
+        if case.get("pkg"):
+            inc("relative_imports")
+            inc("relative_imports_%d_dots" % max(len(m.group(1)) for m in re.finditer(r"^from (\.+)", case["text"], re.M)))
+        if case.get("mode") == "tidy":
+            inc("tidy_route_" + case.get("route", "?"))
+            if case.get("file") != case["text"]:
+                inc("tidy_file_lacks_or_renames_imports")
+            if case.get("mandatory"):
+                inc("tidy_mandatory_import")
+            if case.get("dbfiles") == 2:
+                inc("tidy_two_database_files")
+            for k in ("tidy_reference_failed", "tidy_reference_outside_domain"):
+                if obs.get(k):
+                    inc(k)
+            if obs.get("t0") is not None and obs.get("out") is not None and obs["t0"] != obs["out"]:
+                inc("tidy_changed")
         inc("src_" + case.get("_src", "?"))
         inc("mode_" + case.get("mode", "transform"))
         inc("odomain" if case.get("odomain") else "konly")
@@ -734,6 +879,16 @@ class C18(Prop):
             inc("changed")
 
 
+def _on_program(fam):
+    """tidy route: the program the rename applies to is what tidy-imports made of the file (carried by the
+    failure as `text`), the family predicates read that one"""
+    def wrapped(case, failure):
+        if case.get("mode") == "tidy" and failure.get("text"):
+            case = dict(case, text=failure["text"])
+        return fam(case, failure)
+    return wrapped
+
+
 PROP = C18()
 PROP.families = {
     "alias_is_old_dotted_new": PROP.fam_alias_is_old_dotted_new,
@@ -741,7 +896,9 @@ PROP.families = {
     "new_contains_later_old": PROP.fam_new_contains_later_old,
     "nested_from_import": PROP.fam_nested_from_import,
     "identifier_not_w": PROP.fam_identifier_not_w,
+    "reads_through_package_binding": PROP.fam_reads_through_package_binding,
 }
+PROP.families = {k: _on_program(v) for k, v in PROP.families.items()}
 
 
 def _eval_main():
